@@ -370,6 +370,21 @@ func pickTLS12HashForSignature(sigType uint8, clientList, serverList []SigAndHas
 	return 0, errors.New("tls: client doesn't support any common hash functions")
 }
 
+// tlsHashID returns the TLS HashAlgorithm identifier (RFC 5246, Section
+// 7.4.1.4.1) of the hash named by a signature scheme, for logging. Ed25519
+// signs the message directly, which TLS calls "intrinsic".
+func tlsHashID(h crypto.Hash) uint8 {
+	if h == directSigning {
+		return hashIntrinsic
+	}
+	for id, f := range supportedHashFunc {
+		if f == h {
+			return id
+		}
+	}
+	return hashNone
+}
+
 // ecdheKeyAgreement implements a TLS key agreement where the server
 // generates an ephemeral EC public/private key pair and signs it. The
 // pre-master secret is then calculated using ECDH. The signature may
@@ -610,7 +625,7 @@ func (ka *ecdheKeyAgreement) processServerKeyExchange(config *Config, clientHell
 		auth.raw = sig
 		auth.valid = ka.verifyError == nil
 		auth.sh.Signature = sigType
-		auth.sh.Hash = uint8(sigHash)
+		auth.sh.Hash = tlsHashID(sigHash)
 	default:
 		break
 	}
